@@ -202,6 +202,8 @@ func (m Message) ClearString() string {
 			switch v := v.(type) {
 			case Message:
 				args[i] = v.ClearString()
+			case string:
+				args[i], _ = TransCtrlSeq(v, false)
 			default:
 				args[i] = v
 			}
@@ -271,6 +273,11 @@ func TransCtrlSeq(str string, ansi bool) (dst string, change bool) {
 	dst = fmtPat.ReplaceAllStringFunc(
 		str,
 		func(str string) string {
+			if !ansi {
+				// remove whatever the pattern matched: it also matches codes
+				// the table does not list (§k, upper-case letters)
+				return ""
+			}
 			f, ok := fmtCode[str[2]]
 			if ok {
 				if ansi {
